@@ -27,9 +27,9 @@ from concretise import concretise
 from sentence import spec_tree
 from c11 import _freeze
 
-THEMES = ['stmt', 'asi', 'asi2', 'slash', 'lit', 'ctrl', 'acc']
+THEMES = ['stmt', 'asi', 'asi2', 'slash', 'lit', 'ctrl', 'acc', 'iter']
 
-RULE = ('sentences of 7 themes (subsampled), comments of 5 shapes placed in '
+RULE = ('sentences of 8 themes (subsampled; plus, for one sentence per tree shape, a comment in every single gap), comments of 12 shapes placed in '
         'rotating gaps (every gap index is used across the run; line-break '
         'bearing comments only where the derivation has a line break or at '
         'the end); one evaluation per commented text.  Non-trivial = at '
@@ -41,8 +41,9 @@ BREAKING = ['//c%d\n', '/*a\nb%d*/', '/* x%d */\n', '//\r\n',
             '// t%d \t\n', '/* a \r\n * \r\n * b%d\t\r\n */', '/*\r%d \r*/']
 
 
-def place_comments(sent, rng, n):
-    """-> (gaps override, [comment texts in source order])"""
+def place_comments(sent, rng, n, at=None):
+    """-> (gaps override, [comment texts in source order]); at: put one
+    comment into exactly that gap"""
     toks = sent.tokens
     gaps = {}
     placed = []
@@ -51,6 +52,8 @@ def place_comments(sent, rng, n):
     chosen = sorted(rng.sample(slots, min(k, len(slots))))
     if n % 5 == 0 and len(chosen) == 2:
         chosen = [chosen[0], chosen[0]]          # adjacent pair in one gap
+    if at is not None:
+        chosen = [at]
     tail = ''
     per_gap = {}
     for g in chosen:
@@ -89,6 +92,8 @@ RE_RESTRICTED = re.compile(
     r'(?:' + COMMENT + r'[ \t]*\n?[ \t]*)*' + COMMENT + r'[ \t]*\n\s*(?:\S)')
 RE_PROPNAME = re.compile(
     r'[{,]\s*(?:' + COMMENT + r'\s*)+(?:[\w$]+|\'[^\']*\'|"[^"]*")\s*:')
+RE_FORCLAUSE = re.compile(
+    r'\bfor\s*\((?:[^;()]*;)?\s*(?:' + COMMENT + r'\s*)+;')
 RE_BACKTRACK = re.compile(
     r'(?:\+\+|--|\})\s*(?:/\*(?:[^*]|\*(?!/))*\*/\s*)+/[^*/]')
 
@@ -107,6 +112,10 @@ def roundtrip_cause(out):
     if RE_PROPNAME.search(out):
         # (c) a comment in front of a property name is not captured
         return 'comment-before-property-name'
+    if RE_FORCLAUSE.search(out):
+        # (d) a comment in an omitted clause of a for header: it is printed
+        # in front of the next semicolon, where capture drops it
+        return 'comment-in-omitted-for-clause'
     return ''
 
 
@@ -176,16 +185,28 @@ def main(tier, seed, replay=None):
     meta = []
     mod = 12 if tier == 'quick' else 1
     n = 0
+    shapes = set()
     for name in THEMES:
         for s in themes[name]:
-            if hash(s.key()) % mod or not s.tokens:
+            if not s.tokens:
                 continue
-            n += 1
-            gaps, tail, placed = place_comments(s, rng, n)
-            text = concretise(s, seed=seed + n, gaps=gaps) + tail
-            work.append(text)
-            meta.append((_freeze(s) if False else s, placed, spec_tree(s),
-                         s.abstract()))
+            # one sentence per tree shape (node kind x which optional parts
+            # are present): a comment in every single gap of it
+            new = False
+            for nd in s.nodes:
+                t = (nd.kind, tuple(c is None for c in nd.children))
+                if t not in shapes:
+                    shapes.add(t)
+                    new = True
+            every = range(len(s.tokens) + 1) if new and \
+                len(s.tokens) <= 10 else []
+            variants = [None] if hash(s.key()) % mod == 0 else []
+            for at in list(every) + variants:
+                n += 1
+                gaps, tail, placed = place_comments(s, rng, n, at)
+                text = concretise(s, seed=seed + n, gaps=gaps) + tail
+                work.append(text)
+                meta.append((s, placed, spec_tree(s), s.abstract()))
     rep.mark('generated')
     res = impl.pmap(_case, work, chunk=200)
     rep.mark('executed')
